@@ -7,4 +7,4 @@ From StgV Require Import Model.Chars Model.Export Model.Encoding.
 Extraction Language OCaml.
 Extraction "../ocaml/emodel.ml" Export.split_patch Export.parse_message Export.parse_name_email
   Export.specialize Export.descr_split Export.export_file Export.import_file Export.default_template
-  Export.diff_is_empty Export.utf8_valid Encoding.recreate Encoding.git_text.
+  Export.diff_is_empty Export.utf8_valid Encoding.recreate Encoding.recreate_name Encoding.git_text.
